@@ -191,6 +191,65 @@ theorem cts_calls_width_independent (C : Cipher) (w₁ w₂ : Nat) (iv buf : Byt
   · simp only [Cts.ecbCs3Enc, he]
   · simp only [Cts.ecbCs3Dec, hdd]
 
+/-! ### any sequence of backend entry points (caller-written closures for `*_with_backend`)
+
+  A user of `BlockModeEncrypt::encrypt_with_backend` / `BlockModeDecrypt::decrypt_with_backend` (and of
+  `StreamCipherCore::process_with_backend`) may call the backend's entry points in any order: `*_block[_inplace]` on one
+  block, `*_par_blocks[_inplace]` on exactly `ParBlocksSize` blocks, `*_tail_blocks[_inplace]` on fewer (whose default
+  body is the single-block one per block).  Whatever the order, the result is that of one block at a time. -/
+
+/-- one call of a backend entry point -/
+inductive Entry
+  | block (b : Bytes)                -- `*_block`, `*_block_inplace`
+  | par (chunk : List Bytes)         -- `*_par_blocks`, `*_par_blocks_inplace`: exactly `ParBlocksSize` blocks
+  | tail (blocks : List Bytes)       -- `*_tail_blocks`, `*_tail_blocks_inplace`: fewer than `ParBlocksSize` blocks
+
+def Entry.blocks : Entry → List Bytes
+  | .block b => [b]
+  | .par ch => ch
+  | .tail l => l
+
+/-- a caller-written closure: the entry points it calls, in order, state threaded through -/
+def runEntries {σ : Type} (step : σ → Bytes → Bytes × σ) (par : σ → List Bytes → List Bytes × σ) :
+    σ → List Entry → List Bytes × σ
+  | s, [] => ([], s)
+  | s, e :: es =>
+    let r := match e with
+      | .block b => let q := step s b; ([q.1], q.2)
+      | .par ch => par s ch
+      | .tail l => foldBlocks step s l
+    let r2 := runEntries step par r.2 es
+    (r.1 ++ r2.1, r2.2)
+
+theorem entries_eq_one_at_a_time {σ : Type} (w : Nat) (step : σ → Bytes → Bytes × σ)
+    (par : σ → List Bytes → List Bytes × σ)
+    (hpar : ∀ s chunk, chunk.length = w → par s chunk = foldBlocks step s chunk) :
+    ∀ (es : List Entry) (s : σ), (∀ e ∈ es, ∀ ch, e = .par ch → ch.length = w) →
+      runEntries step par s es = foldBlocks step s (es.map Entry.blocks).flatten := by
+  intro es
+  induction es with
+  | nil => intro s _; rfl
+  | cons e es ih =>
+    intro s hw
+    have ih' := fun s' => ih s' (fun e' he' => hw e' (by simp [he']))
+    simp only [runEntries, List.map_cons, List.flatten_cons, foldBlocks_append]
+    cases e with
+    | block b => simp only [Entry.blocks, foldBlocks, ih']
+    | par ch => simp only [Entry.blocks, hpar s ch (hw _ (by simp) ch rfl), ih']
+    | tail l => simp only [Entry.blocks, ih']
+
+/-- instances: the two hand-written parallel bodies of the block modes (all other block-mode backends declare
+    `ParBlocksSize = U1`, so their `par` is the default one-block loop). -/
+theorem cbc_dec_entries (C : Cipher) (w : Nat) (es : List Entry) (iv : Bytes)
+    (hw : ∀ e ∈ es, ∀ ch, e = .par ch → ch.length = w) :
+    runEntries (Cbc.decBlock C) (Cbc.decPar C) iv es = foldBlocks (Cbc.decBlock C) iv (es.map Entry.blocks).flatten :=
+  entries_eq_one_at_a_time w _ _ (fun s ch _ => C02.cbc_decPar_eq_fold C ch s) es iv hw
+
+theorem cfb_dec_entries (C : Cipher) (w : Nat) (es : List Entry) (iv : Bytes)
+    (hw : ∀ e ∈ es, ∀ ch, e = .par ch → ch.length = w) :
+    runEntries (Cfb.decBlock C) (Cfb.decPar C) iv es = foldBlocks (Cfb.decBlock C) iv (es.map Entry.blocks).flatten :=
+  entries_eq_one_at_a_time w _ _ (fun s ch _ => C03.cfb_decPar_eq_fold C ch s) es iv hw
+
 /-! ### non-vacuity: 5 blocks as (2 + 3) under w = 2 versus (1 + 4) under w = 3 feed the same blocks -/
 example : ([Call.many [[1], [2]], .many [[3], [4], [5]]].map Call.blocks).flatten
     = ([Call.one [1], .many [[2], [3], [4], [5]]].map Call.blocks).flatten := by decide
